@@ -32,7 +32,10 @@ CONSTANTS Users,        \* abstract user names, e.g. {"u1","u2","u3"}
           MaxSubs,      \* configured subscriber limit
           DEV_NewSubWantO,          \* a first-time subscriber may request O in want
           DEV_UnsetWantTakesGiven,  \* un-self-ban copies given (incl. O) into want
-          DEV_BannedUpdateApplied,  \* a banned user's {sub}/{set} stores the new want, then is answered 403
+          DEV_BannedUpdateApplied,
+          \* ^ a banned user's {sub}/{set} stores the new want, then is answered 403
+          DEV_ReadNoteRecvNotStored, \* {note read} past the recv mark raises recv in the live topic but stores ReadSeqId only
+          DEV_OfflineSetSubBypassesCache, \* a detached user's {set sub} is written to the store behind a loaded topic's back
           DEV_AdminSelfRaise        \* placeholder for seeded variants; FALSE = as pinned
 
 T(m) == SelectSeq(Letters, LAMBDA c : c \in m)
@@ -40,7 +43,7 @@ M(tp) == ToSet(tp)
 Eff(r) == M(r.want) \cap M(r.given)
 
 NoSub    == [st |-> "none", want |-> <<>>, given |-> <<>>, read |-> 0, recv |-> 0, delId |-> 0]
-NoTopic  == [exists |-> FALSE, seq |-> 0, delId |-> 0, owner |-> "", auth |-> <<>>, anon |-> <<>>]
+NoTopic  == [exists |-> FALSE, seq |-> 0, delId |-> 0, owner |-> "", auth |-> <<>>, anon |-> <<>>, public |-> "null"]
 Unloaded == [loaded |-> FALSE]
 NoPer    == [in |-> FALSE, want |-> <<>>, given |-> <<>>, read |-> 0, recv |-> 0, delId |-> 0,
              online |-> 0, deleted |-> FALSE, ischan |-> FALSE]
@@ -52,6 +55,7 @@ InitState ==
    cache  |-> [t \in Topics |-> Unloaded],
    sess   |-> [s \in Sessions |-> [live |-> TRUE, subs |-> <<>>]]]
 
+PublicText(x) == "{\"fn\":\"" \o x \o "\"}"      \* the harness sets public = {"fn": <name>}
 GrpDefaultAuth == CPublic      \* getDefaultAccess(grp, auth)
 GrpDefaultAnon == None
 
@@ -122,7 +126,7 @@ NewGrpStep(S, a) ==
       want == IF a.mode = <<"-">> \/ ~pm.ok \/ pm.m = Unset THEN CFull ELSE Mask(pm.m) \cup {"J", "O"}
       row == [st |-> "live", want |-> T(want), given |-> T(CFull), read |-> 0, recv |-> 0, delId |-> 0]
       S1 == [S EXCEPT !.topics[t] = [exists |-> TRUE, seq |-> 0, delId |-> 0, owner |-> u,
-                                    auth |-> T(GrpDefaultAuth), anon |-> T(GrpDefaultAnon)],
+                                    auth |-> T(GrpDefaultAuth), anon |-> T(GrpDefaultAnon), public |-> PublicText(t)],
                       !.subs[t][u] = row,
                       !.cache[t] = [loaded |-> TRUE, last |-> 0, del |-> 0, owner |-> u,
                                     auth |-> T(GrpDefaultAuth), anon |-> T(GrpDefaultAnon),
@@ -177,7 +181,9 @@ ThisUserSub(S, t, u, modeTxt) ==
                        ELSE oldWant)
                  ELSE mw
         changed == want1 # oldWant \/ given1 # oldGiven
-        S1 == [S EXCEPT !.subs[t][u].want = T(want1), !.subs[t][u].given = T(given1),
+        \* the store is written only for the fields that differ from the CACHED values
+        S1 == [S EXCEPT !.subs[t][u].want = IF want1 # oldWant THEN T(want1) ELSE @,
+                        !.subs[t][u].given = IF given1 # oldGiven THEN T(given1) ELSE @,
                         !.cache[t].per[u].want = T(want1), !.cache[t].per[u].given = T(given1)]
         \* ownership transfer: old owner loses O in want and given, topic row and cache owner move
         old == c.owner
@@ -221,7 +227,21 @@ LeaveStep(S, a) ==
 \* ---------------------------------------------------------------- {set sub} by the user for themselves, session attached
 SetSelfStep(S, a) ==
   LET t == a.t  s == a.s  u == SessUser[s] IN
-  IF t \notin M(S.sess[s].subs) THEN Reply(S, -1)                   \* offline path (hub): not modelled here
+  IF t \notin M(S.sess[s].subs) THEN
+     \* hub.meta -> replyOfflineTopicSetSub: store only, even when the topic is loaded (DEV_OfflineSetSubBypassesCache)
+     LET row == S.subs[t][u]
+         pm == Parse(a.mode)
+         mw == Mask(pm.m)
+     IN IF a.mode = <<"-">> \/ a.mode = <<>> THEN Reply(S, 304)
+        ELSE IF row.st # "live" THEN Reply(S, 404)
+        ELSE IF ~pm.ok THEN Reply(S, 500)
+        ELSE IF pm.m = Unset THEN Reply(S, 304)
+        ELSE IF ("O" \in mw) # ("O" \in M(row.want)) THEN Reply(S, 403)
+        ELSE IF mw = M(row.want) THEN Reply(S, 304)
+        ELSE LET S1 == [S EXCEPT !.subs[t][u].want = T(mw)]
+                 S2 == IF S.cache[t].loaded /\ ~DEV_OfflineSetSubBypassesCache /\ S.cache[t].per[u].in
+                       THEN [S1 EXCEPT !.cache[t].per[u].want = T(mw)] ELSE S1
+             IN Reply(S2, 200)
   ELSE LET before == S.cache[t].per[u]
            r == ThisUserSub(S, t, u, a.mode)
            after == r.st.cache[t].per[u]
@@ -276,6 +296,42 @@ DelSubStep(S, a) ==
   ELSE LET S1 == [S EXCEPT !.subs[t][x].st = "del"] IN
        Reply(Evict(S1, t, x, TRUE), IF S.subs[t][x].st = "live" THEN 200 ELSE 304)
 
+\* ---------------------------------------------------------------- {del what=topic}
+\* hub.topicUnreg: owner of a loaded topic deletes it for everybody; anybody else on a loaded topic = leave+unsub;
+\* unloaded topic: owner deletes, a subscriber unsubscribes, others get 304/403
+DeleteTopic(S, t) ==
+  [S EXCEPT !.topics[t] = NoTopic,
+            !.subs[t] = [u \in Users |-> NoSub],
+            !.msgs[t] = <<>>,
+            !.cache[t] = Unloaded,
+            !.sess = [x \in Sessions |-> [S.sess[x] EXCEPT !.subs = SubsTuple(M(@) \ {t})]]]
+
+DelTopicStep(S, a) ==
+  LET t == a.t  s == a.s  u == SessUser[s]  c == S.cache[t] IN
+  IF ~S.topics[t].exists THEN Reply(S, 404)
+  ELSE IF c.loaded THEN
+     IF c.owner = u THEN Reply(DeleteTopic(S, t), 200)
+     ELSE IF S.subs[t][u].st # "live" THEN Reply(S, 304)
+     ELSE Reply(Evict([S EXCEPT !.subs[t][u].st = "del"], t, u, TRUE), 200)
+  ELSE
+     LET row == S.subs[t][u] IN
+     IF row.st # "live" THEN Reply(S, IF \E v \in Users : S.subs[t][v].st = "live" THEN 403 ELSE 304)
+     ELSE IF "O" \in Eff(row) THEN Reply(DeleteTopic(S, t), 200)
+     ELSE Reply([S EXCEPT !.subs[t][u].st = "del"], 200)
+
+\* ---------------------------------------------------------------- {set desc: defacs.auth, public} on an attached group topic
+SetDescStep(S, a) ==
+  LET t == a.t  s == a.s  u == SessUser[s]  c == S.cache[t] IN
+  IF t \notin M(S.sess[s].subs) THEN Reply(S, -1)
+  ELSE IF c.owner # u THEN Reply(S, 403)
+  ELSE LET pm == Parse(a.auth)
+           newAuth == IF a.auth = <<"-">> \/ pm.m = Unset THEN M(c.auth) ELSE Mask(pm.m)
+           newPub == IF a.public = "-" THEN S.topics[t].public ELSE PublicText(a.public)
+       IN IF a.auth # <<"-">> /\ ~pm.ok THEN Reply(S, 400)
+          ELSE IF "O" \in newAuth THEN Reply(S, 400)
+          ELSE IF newAuth = M(c.auth) /\ a.public = "-" THEN Reply(S, 304)    \* a supplied public always counts as a change
+          ELSE Reply([S EXCEPT !.topics[t].auth = T(newAuth), !.topics[t].public = newPub, !.cache[t].auth = T(newAuth)], 200)
+
 \* ---------------------------------------------------------------- {pub}
 Writable(S, t, s) ==
   /\ t \in M(S.sess[s].subs)
@@ -293,8 +349,8 @@ PubStep(S, a) ==
                            !.subs[t][u].read = IF reader THEN n ELSE @,
                            !.subs[t][u].recv = IF reader THEN n ELSE @,
                            !.cache[t].last = n,
-                           !.cache[t].per[u].read = n,
-                           !.cache[t].per[u].recv = n]
+                           !.cache[t].per[u].read = IF reader THEN n ELSE @,
+                           !.cache[t].per[u].recv = IF reader THEN n ELSE @]
            dataTo == {x.s : x \in {y \in M(c.att) : "R" \in Eff(c.per[y.u])}} \ (IF a.noecho THEN {s} ELSE {})
            pushTo == {v \in Users : c.per[v].in /\ {"P", "R"} \subseteq Eff(c.per[v]) /\ ~c.per[v].deleted /\ ~c.per[v].ischan}
        IN [st |-> S1, out |-> [code |-> 202, dataTo |-> dataTo, pushTo |-> pushTo, seq |-> n]]
@@ -302,7 +358,9 @@ PubStep(S, a) ==
 \* ---------------------------------------------------------------- {note what=read|recv seq=N}
 NoteStep(S, a) ==
   LET t == a.t  s == a.s  u == SessUser[s]  c == S.cache[t] IN
-  IF t \notin M(S.sess[s].subs) \/ ~c.loaded THEN Reply(S, 0)
+  \* a detached session's {note recv} is forwarded by the hub to the loaded topic; other detached notes get 409
+  IF ~c.loaded \/ (t \notin M(S.sess[s].subs) /\ a.what # "recv") THEN Reply(S, 0)
+  ELSE IF ~c.per[u].in THEN Reply(S, 0)
   ELSE LET pud == c.per[u]
            mode == Eff(pud)
            n == a.seq
@@ -313,7 +371,8 @@ NoteStep(S, a) ==
           ELSE   IF n <= pud.read THEN Reply(S, 0)
                  ELSE LET rv == IF pud.recv < n THEN n ELSE pud.recv IN
                       Reply([S EXCEPT !.cache[t].per[u].read = n, !.cache[t].per[u].recv = rv,
-                                      !.subs[t][u].read = n, !.subs[t][u].recv = rv], 0)
+                                      !.subs[t][u].read = n,
+                                      !.subs[t][u].recv = IF DEV_ReadNoteRecvNotStored THEN @ ELSE rv], 0)
 
 \* ---------------------------------------------------------------- idle unload (only when nobody is attached)
 UnloadStep(S, a) ==
@@ -338,6 +397,8 @@ Step(S, a) ==
     [] a.a = "SetSelf"    -> SetSelfStep(S, a)
     [] a.a = "SetOther"   -> SetOtherStep(S, a)
     [] a.a = "DelSub"     -> DelSubStep(S, a)
+    [] a.a = "DelTopic"   -> DelTopicStep(S, a)
+    [] a.a = "SetDesc"    -> SetDescStep(S, a)
     [] a.a = "Pub"        -> PubStep(S, a)
     [] a.a = "Note"       -> NoteStep(S, a)
     [] a.a = "Unload"     -> UnloadStep(S, a)
@@ -345,5 +406,5 @@ Step(S, a) ==
     [] a.a = "Get"        -> GetStep(S, a)
     [] OTHER              -> Reply(S, 0)
 
-Modelled(a) == a.a \in {"NewGrp", "Sub", "Leave", "SetSelf", "SetOther", "DelSub", "Pub", "Note", "Unload", "Disconnect", "Get"}
+Modelled(a) == a.a \in {"DelTopic", "SetDesc", "NewGrp", "Sub", "Leave", "SetSelf", "SetOther", "DelSub", "Pub", "Note", "Unload", "Disconnect", "Get"}
 =============================================================================
